@@ -537,6 +537,15 @@ def run(a, res):
                 "single-token deletion / type-name mutation of valid SML, random token strings, hand-layout SML, random character strings. "
                 "distinct = distinct canonical input; non-trivial = not the empty item / empty text")
     known_cap = {"c15-quote": 0, "c15-jis8-nonascii": 0}
+    import time as _time
+    clock = {"t": _time.time()}
+
+    def lap(name):
+        now = _time.time()
+        res.bump("section_seconds", name, round(now - clock["t"], 1))
+        clock["t"] = now
+        if os.environ.get("C15_TRACE"):
+            print(f"[c15] {name}: {res.hist['section_seconds'][name]} s", file=sys.stderr, flush=True)
     hang_seen = {"n": 0}
 
     def note_hang(text, origin):
@@ -718,9 +727,11 @@ def run(a, res):
             plines.append(parse_line(text))
             panswers.append(ans)
             res.bump("parse_printed_outcome", ans.split(" ")[0] + (" " + ans.split(" ")[1] if ans.startswith("err") else ""))
+    lap("items: impl print/parse + oracle")
     hlib.compare_batch(res, drv, f"to_sml() vs Model.Sml.toSml (defects={flags})", cases, lines, answers)
     hlib.compare_batch(res, drv, "Item.from_sml vs Model.Sml.parse on printed text", pcases, plines, panswers)
 
+    lap("items: model correspondence")
     # ------------------------------------------------------------ A'. A/J items constructed from `str` (O)
     # every character of U+0000..U+00FF, the JIS X 0201 specials (yen, overline, half-width katakana) and a few others: either the text is
     # not an encodable item (constructor / encode() raises — then nothing is claimed) or its SML parses back to the same text
@@ -754,6 +765,7 @@ def run(a, res):
     res.exhaustive_parts.append(f"A and J items constructed from str: every character of U+0000..U+00FF and the JIS X 0201 specials alone and in three "
                                 f"contexts, backslash/tilde texts, random mixes: {n_str} texts")
 
+    lap("str-built items")
     # ------------------------------------------------------------ B. rejection stream
     cases, lines, answers = [], [], []
 
@@ -849,7 +861,8 @@ def run(a, res):
     # every strict prefix of a valid text lacks (at least) the final closing bracket
     quoted = [t for t in base_texts if '"' in t]
     for text in quoted[:(200 if big else 40)] + base_texts[-(200 if big else 40):]:
-        for cut in range(len(text)):
+        cuts = range(len(text)) if len(text) <= 400 else sorted({rng.below(len(text)) for _ in range(150)} | set(range(len(text) - 40, len(text))) | set(range(40)))
+        for cut in cuts:
             reject_case(text[:cut], "missing-closing-bracket", "truncate")
     # every single-character deletion of valid SML (in particular: each quote of a literal, each bracket, each separating blank)
     n_chdel = 0
@@ -860,8 +873,10 @@ def run(a, res):
             reject_case(text[:i] + text[i + 1:], None, "delete-char:" + ("quote" if text[i] in "\"'" else "bracket" if text[i] in "<>[]" else "other"))
             n_chdel += 1
     res.exhaustive_parts.append(f"every single-character deletion of valid SML texts (those with quoted literals first): {n_chdel} texts")
+    lap("rejection stream: impl")
     hlib.compare_batch(res, drv, "Item.from_sml vs Model.Sml.parse on the rejection stream", cases, lines, answers)
 
+    lap("rejection stream: model correspondence")
     # ------------------------------------------------------------ C. tokenizer and int() literal correspondence
     cases, lines, answers = [], [], []
     for i in range(20000 if big else 3000):
@@ -892,6 +907,7 @@ def run(a, res):
             res.count(("int", b0, t), nontrivial=bool(t))
     hlib.compare_batch(res, drv, "int(text) / int(text, 0) vs Model.Sml.pyInt", cases, lines, answers)
 
+    lap("tokenizer / int literal correspondence")
     # ------------------------------------------------------------ D. the laws assumed of the float text (theorem hypotheses), sampled
     n_law = 0
     bad_chars = set(" \t\n\r<>[]'\"")
@@ -935,6 +951,7 @@ def run(a, res):
                 res.violate("float-rejects-law", f"{cls.__name__}._type accepts a bracket / terminator token", {"text": t, "kind": "float-accepts"})
             res.bump("float_rejects_samples", "accepted" if accepted else "rejected")
     res.evaluations += n_rej
+    lap("float laws")
 
 
 def parse_sexp(s: str):
